@@ -307,6 +307,39 @@ def run(ctx):
         # straight line: cons push dominates both, the later post-dominates the earlier, no branch in between
         first, second = (b1, b2) if th.dominates(b1, b2) else (b2, b1)
         okp = th.dominates(cb, first) and th.dominates(first, second) and th.postdominates(second, cb)
+    # ... and on every non-failing path through the Pair arm: from the arm's entry no path may get back to the loop
+    # header (or to a normal return) without passing the two child pushes (a hash cache / sharing shortcut would)
+    if okp:
+        arm = None
+        for x in th.dominators(sexp_p[0][0]):
+            dv = th.discr_variants(x)
+            if dv and (th.discr_enum(x) or "").endswith("NodeVisitor"):
+                for tgt, v in th.succ(x):
+                    if v in dv and dv[v] == "Pair":
+                        arm = tgt
+        loops_ = th.loops()
+        hdrs = set(loops_)
+        if arm is None or not hdrs:
+            okp = False
+        else:
+            both = {b for b, _ in sexp_p}
+            seen, work, escaped = set(), [arm], []
+            while work:
+                b = work.pop()
+                if b in seen:
+                    continue
+                seen.add(b)
+                if b in hdrs:
+                    escaped.append(b)
+                    continue
+                passed = b in both and all(th.dominates(o, b) or o == b for o in both)
+                if passed:
+                    continue
+                if th.is_error_block(b):
+                    continue
+                for tb, _ in th.succ(b):
+                    work.append(tb)
+            okp = not escaped
     ck.ob("R10d", "treehash::tree_hash_costed|pair arm", okp,
           "for every pair both children are pushed unconditionally (sub-trees are hashed, and charged, once per occurrence)",
           site=th.where(sexp_p[0][0]) if sexp_p else th.where(0), detail=[v for _, v in pushes])
